@@ -146,6 +146,74 @@ func runFixtures(c *core.Ctx, engines ...string) {
 			fb, bb, _ := sc.Find("R17.6", "BadPool|pool-put#1")
 			c.FixtureResult("pool:GoodPool", false, !fg || bg)
 			c.FixtureResult("pool:BadPool", true, fb && bb)
+		case "read":
+			for _, tc := range []struct {
+				name string
+				want bool
+			}{{"GoodReadLoop", false}, {"GoodFillLoop", false}, {"BadSingleRead", true}, {"BadShortExit", true}, {"BadEOFTail", true}} {
+				f := fn(tc.name)
+				if f == nil {
+					c.Hard("fixture function %s missing", tc.name)
+					continue
+				}
+				sites := readSites(fp, []*ssa.Function{f})
+				fired := len(sites) == 1 && sites[0].bad != ""
+				if len(sites) != 1 {
+					c.Hard("fixture %s: expected one Read site, found %d", tc.name, len(sites))
+				}
+				c.FixtureResult("read:"+tc.name, tc.want, fired)
+			}
+		case "eofmap":
+			for _, tc := range []struct {
+				name string
+				want bool
+			}{{"BadEOFMap", true}, {"BadEOFBreak", true}, {"GoodEOFKeep", false}} {
+				f := fn(tc.name)
+				if f == nil {
+					c.Hard("fixture function %s missing", tc.name)
+					continue
+				}
+				sites := truncationSwallowed(fp, []*ssa.Function{f})
+				if len(sites) != 1 {
+					c.Hard("fixture %s: expected one io.ErrUnexpectedEOF test, found %d", tc.name, len(sites))
+					continue
+				}
+				c.FixtureResult("eofmap:"+tc.name, tc.want, sites[0].bad != "")
+			}
+		case "once":
+			for _, tc := range []struct {
+				typ  string
+				want bool
+			}{{"GoodMemo", false}, {"BadMemo", true}} {
+				n := fp.Named("", tc.typ)
+				if n == nil {
+					c.Hard("fixture type %s missing", tc.typ)
+					continue
+				}
+				sites := onceErrSites(fp, []*ssa.Function{methodsOf(fp, n)["Names"]})
+				if len(sites) != 1 {
+					c.Hard("fixture %s: expected one Once.Do site, found %d", tc.typ, len(sites))
+					continue
+				}
+				c.FixtureResult("once:"+tc.typ, tc.want, sites[0].bad != "")
+			}
+		case "notexist":
+			for _, tc := range []struct {
+				name string
+				want bool
+			}{{"GoodFirst", false}, {"BadFirst", true}} {
+				f := fn(tc.name)
+				if f == nil {
+					c.Hard("fixture function %s missing", tc.name)
+					continue
+				}
+				sites := notExistSites(fp, []*ssa.Function{f})
+				if len(sites) != 1 {
+					c.Hard("fixture %s: expected one ErrNotExist return, found %d", tc.name, len(sites))
+					continue
+				}
+				c.FixtureResult("notexist:"+tc.name, tc.want, sites[0].bad)
+			}
 		case "paging":
 			for _, tn := range []string{"GoodDir", "BadDir"} {
 				n := fp.Named("", tn)
